@@ -70,6 +70,26 @@ LeeMask(lev, cen2, k, b, t) ==
         tt == IF t.set THEN 2 * t.x ELSE cen2[Len(cen2)]
     IN  IF cen2[k] <= bb /\ cen2[k] >= tt THEN Q(1) ELSE Q(0)
 
+\* ------------------------------------ several contributions in one tangent layer
+\* Optical depths add.  The model evaluates the contributions of a tangent layer one after the
+\* other (any order) and may stop early once the layer is opaque (documented cut-off:
+\* accumulated tau > Cut at EVERY wavenumber).  acc[w] is the accumulated optical depth, taus[c][w]
+\* what contribution c adds at wavenumber w.
+RECURSIVE TauSum(_, _, _)
+TauSum(taus, w, c) == IF c = 0 THEN 0 ELSE TauSum(taus, w, c - 1) + taus[c][w]
+CutoffReached(acc, W, rule, cut) == IF rule = "all" THEN \A w \in W : acc[w] > cut
+                                                      ELSE \E w \in W : acc[w] > cut
+\* a cloud or haze next to another absorber: at every wavenumber the accumulated depth is the sum of
+\* ALL contributions, or (licensed) both are beyond the cut-off at that wavenumber
+LayerAdmissible(acc, taus, W, cut) ==
+    \A w \in W : \/ acc[w] = TauSum(taus, w, Len(taus))
+                  \/ (acc[w] > cut /\ TauSum(taus, w, Len(taus)) > cut)
+\* the same on transmittances (decimal observations): tb with both contributions, ta / th each alone;
+\* E10 >= exp(-10) is the transmittance at the cut-off
+E10 == <<BOf(45400), -9>>
+MixOk(tb, ta, th, ppb) == \/ DClose(tb, DMul(ta, th), ppb)
+                          \/ (DLe(tb, E10) /\ DLe(DMul(ta, th), E10))
+
 \* --------------------------------------------- transit depth with a deck
 \* documented integral (C01), numerator in units of Rs^2:  R^2 + sum_k 2 (R + z_k) (1 - tr_k) dz_k
 RECURSIVE DepthSum(_, _, _, _, _)
